@@ -78,6 +78,41 @@ def check_structure_preserving(mir, res, rule):
     res.floor("values rebuilt by the CST->AST conversion", n, 20)
 
 
+def eval_bool_path(f, start):
+    """value returned (as 'true'/'false'/None) when execution continues at block `start`: straight-line constant
+    propagation through const stores, copies and `Not` (what `matches!` / `!matches!` lower to)"""
+    env = {}
+    cur = start
+    for _ in range(12):
+        blk = f.blocks[cur]
+        for s_ in blk["stmts"]:
+            if s_["k"] != "assign" or s_["pl"]["p"]:
+                continue
+            rv = s_["rv"]
+            val = None
+            if rv["k"] == "use":
+                o = rv["op"]
+                if o["k"] == "const":
+                    v = o["v"].replace("const ", "")
+                    val = v if v in ("true", "false") else None
+                elif o["k"] in ("copy", "move") and not o["pl"]["p"]:
+                    val = env.get(o["pl"]["l"])
+            elif rv["k"] == "un" and rv.get("op") == "Not":
+                o = rv.get("a")
+                if isinstance(o, dict) and o.get("k") in ("copy", "move") and not o["pl"]["p"]:
+                    inner = env.get(o["pl"]["l"])
+                    val = {"true": "false", "false": "true"}.get(inner)
+            env[s_["pl"]["l"]] = val
+        tk = blk["term"]["k"]
+        if tk == "goto":
+            cur = blk["term"]["target"]
+            continue
+        if tk == "return":
+            return env.get(0)
+        return None
+    return None
+
+
 def check_usedness_predicates(mir, res, rule):
     n = 0
     preds = {}
@@ -118,17 +153,7 @@ def check_usedness_predicates(mir, res, rule):
                     tg = {v: b for (v, b) in t_["targets"]}
                     mapping = {}
                     for vi, vn in enumerate(variants):
-                        cur = tg.get(vi, t_["otherwise"])
-                        val = None
-                        for _ in range(6):
-                            blk = f.blocks[cur]
-                            for s_ in blk["stmts"]:
-                                if s_["k"] == "assign" and s_["pl"]["l"] == 0 and not s_["pl"]["p"] and s_["rv"]["k"] == "use" and s_["rv"]["op"]["k"] == "const":
-                                    val = s_["rv"]["op"]["v"].replace("const ", "")
-                            if val is not None or blk["term"]["k"] != "goto":
-                                break
-                            cur = blk["term"]["target"]
-                        mapping[vn] = val
+                        mapping[vn] = eval_bool_path(f, tg.get(vi, t_["otherwise"]))
                     ok = all(mapping.get(v) == "true" for v in variants if v in USED) and all(mapping.get(v) == "false" for v in variants if v in SKIPPED)
                     why = "%s" % mapping
                 else:
